@@ -54,7 +54,7 @@ Example shape_CreateFAR_as_modelled : shape_CreateFAR =
 Proof. reflexivity. Qed.
 Example shape_UpdateFAR_as_modelled : shape_UpdateFAR =
   [("FARID", [], [], ["return"], [], false);
-   ("ApplyAction", ["FAR_APPLY_ACTION"], ["AttrU16(act.Flags)"], ["return"; "return"], ["applyAction"], false);
+   ("ApplyAction", ["FAR_APPLY_ACTION"], ["AttrU16(act.Flags)"], ["return"; "return"], [], false);
    ("UpdateForwardingParameters", ["FAR_FORWARDING_PARAMETER"], [], ["return"; "break"], ["newForwardingParameter"], true);
    ("BARID", ["FAR_BAR_ID"], ["AttrU8(v)"], ["break"], [], false)].
 Proof. reflexivity. Qed.
